@@ -147,6 +147,8 @@ func checkC10(w *World, r *Report) {
 	}
 	r.floor("block-definition presence tests on render paths", n, 3)
 
+	checkParentCallContext(w, r)
+
 	// ---- R10.2
 	ext := w.ssaFunc(w.method("ExtendsNode", "Render"))
 	ctxParam := ext.Params[2]
@@ -216,6 +218,84 @@ func checkC10(w *World, r *Report) {
 			r.bad("R10.2", ssaName(ext), construct, w.posOf(nested.Pos()), fmt.Sprintf("the parent template is rendered without the child's %s on some path (copy present=%v, from child ctx=%v, dominates nested render=%v): overrides or parent() bodies are lost along the extends chain", field, has, srcOK, dominated))
 		}
 	}
+}
+
+// checkParentCallContext (R10.3): a function that renders a body taken from parentBlocks in a
+// derived context (parent()) must give that context the effective block table of the caller
+// (ctx.blocks), so blocks nested in the parent body are substituted where they stand.
+func checkParentCallContext(w *World, r *Report) {
+	ctors := w.ctxConstructors()
+	n := 0
+	for _, fn := range w.pkgFuncs() {
+		// looks a body up in parentBlocks?
+		var ctxv ssa.Value
+		instrsOf(fn, func(in ssa.Instruction) {
+			if lk, ok := in.(*ssa.Lookup); ok {
+				if base, ok := fieldLoad(lk.X, "RenderContext", "parentBlocks"); ok {
+					ctxv = base
+				}
+			}
+		})
+		if ctxv == nil {
+			continue
+		}
+		// derived context
+		var derived ssa.Value
+		instrsOf(fn, func(in ssa.Instruction) {
+			if c, ok := in.(*ssa.Call); ok {
+				if f := c.Call.StaticCallee(); f != nil && ctors[f] {
+					derived = c
+				}
+			}
+		})
+		if derived == nil {
+			continue
+		}
+		// renders with the derived context?
+		var render ssa.Instruction
+		instrsOf(fn, func(in ssa.Instruction) {
+			if c, ok := in.(ssa.CallInstruction); ok && c.Common().IsInvoke() && c.Common().Method.Name() == "Render" {
+				for _, a := range c.Common().Args {
+					if a == derived {
+						render = in
+					}
+				}
+			}
+		})
+		if render == nil {
+			continue
+		}
+		n++
+		// what is copied into derived.blocks, and from where?
+		var sources []string
+		instrsOf(fn, func(in ssa.Instruction) {
+			mu, ok := in.(*ssa.MapUpdate)
+			if !ok {
+				return
+			}
+			base, ok := fieldLoad(mu.Map, "RenderContext", "blocks")
+			if !ok || base != derived {
+				return
+			}
+			// the stored value comes from a range over which map?
+			if _, f := originField(mu.Value, 0); f != "" {
+				sources = append(sources, f)
+			}
+		})
+		construct := "derived context that renders inherited block bodies receives the caller's effective block table"
+		okSrc := len(sources) > 0
+		for _, s := range sources {
+			if s != "blocks" {
+				okSrc = false
+			}
+		}
+		if okSrc {
+			r.ok("R10.3", ssaName(fn), construct, w.posOf(render.Pos()), "the derived context's blocks are copied from ctx.blocks", true)
+		} else {
+			r.bad("R10.3", ssaName(fn), construct, w.posOf(render.Pos()), fmt.Sprintf("the context in which parent() renders the parent body gets its block table from %v instead of the caller's effective blocks: blocks nested in the parent body fall back to an inherited definition instead of the most-derived one", sources))
+		}
+	}
+	r.Counts["parent() render sites"] = n
 }
 
 // okVarOfBlockLookup: is o the comma-ok variable of a lookup in a block-body map in fd?
